@@ -41,6 +41,8 @@ func checkCiscoConv(p *Prog, r *Report, prop, flavour string) {
 	ruleIdentityFirst(p, r, "R-IDF", prop, 16)
 	ruleFreshTestedAgainstUsed(p, r, "R08.f2")
 	ruleCaseFolding(p, r, "R-FOLD", prop, pk)
+	ruleConstantFormats(p, r, "R-FMT")
+	ruleNoClockInComputation(p, r, "R-CLK")
 	r.rule("R08.c", "Emission discipline (see C08): every call of the emitting helpers in package cisco is an audited site.")
 	ruleEmitDiscipline(p, r, "R08.c", prop, "cisco", []string{"(*cisco.State).addChange", "(*cisco.State).addToplevel", "(*cisco.State).addCmd", "(*cisco.State).addCmds", "(*cisco.State).delCmds"}, 33)
 	ruleMemo(p, r, "R-MEMO", prop, pk, 6)
